@@ -1606,6 +1606,8 @@ def searchsorted(a, v, side="left", sorter=None):
 
 def dot(x, y):
     xa, ya = asarray(x), asarray(y)
+    if xa.ndim == 0 or ya.ndim == 0:
+        return xa * ya if xa.ndim and ya.ndim else (xa * ya if (xa.ndim or ya.ndim) else xa.a[()] * ya.a[()])
     dt = rnp.promote_types(xa.dt, ya.dt)
     if xa.ndim == 1 and ya.ndim == 1:
         if xa.shape != ya.shape:
